@@ -77,7 +77,7 @@ def r13_1(cx):
                       if ok else
                       ('delegate call %s is reachable without passing enforce_anchored_consistency(self.start_kind, <anchoring of the input passed on>)?' % tstr(ct, 200)),
                       line_of(b, blk))
-    cx.floor('R13.1', 'gated delegate calls in AhoCorasick methods', gated, 11)
+    cx.floor('R13.1', 'gated delegate calls in AhoCorasick methods', gated, 11 if cx.config in ('default', 'std', 'logging') else 8)
 
 
 def r13_2(cx):
@@ -108,7 +108,7 @@ def r13_2(cx):
                 if not ok:
                     why = 'arguments are not passed through unchanged: %s' % tstr(inner, 300)
         cx.report('R13.2', b, twin, ok, ('= %s(same args) + panicking unwrap' % twin) if ok else why)
-    cx.floor('R13.2', 'infallible search methods with a try_ twin', n, 10)
+    cx.floor('R13.2', 'infallible search methods with a try_ twin', n, 10 if cx.config in ('default', 'std', 'logging') else 9)
 
 
 def std_gate(x):
@@ -508,7 +508,7 @@ def r13_7(cx):
             cx.report('R13.7', b, '%s@%s' % (what.rsplit('::', 1)[-1], len([1 for x in sites[:sites.index((blk, what))] if x[1] == what])), not off,
                       'error source %s is decided only by configuration: %s' % (what, [tstr(c, 80) for _, c in deciding]) if not off else
                       'error source %s depends on non-configuration data: %s' % (what, [tstr(o, 120) for _, o in off]), line_of(b, blk))
-    cx.floor('R13.7', 'MatchError construction sites outside util/error.rs', n, 9)
+    cx.floor('R13.7', 'MatchError construction sites outside util/error.rs', n, 9 if cx.config in ('default', 'std', 'logging') else 7)
 
 
 RULES = [('R13.1', r13_1), ('R13.2', r13_2), ('R13.3', r13_3), ('R13.4', r13_4), ('R13.5', r13_5), ('R13.6', r13_6), ('R13.7', r13_7)]
